@@ -49,6 +49,7 @@ class CallGraph:
         self.resolved = 0
         self.unresolved: List[str] = []
         self._local_types: Dict[str, Dict[str, Set[str]]] = {}
+        self._fact_cache: Dict[str, tuple] = {}
         self._build()
 
     # ------------------------------------------------------------ typing-lite
@@ -160,13 +161,23 @@ class CallGraph:
                         'search', 'group', 'groups', 'copy', 'pop', 'sort', 'count', 'index', 'find', 'date',
                         'strftime', 'setdefault', 'insert', 'remove', 'clear'}
 
+    def _facts(self, fi: FuncInfo):
+        c = self._fact_cache.get(fi.qualname)
+        if c is None:
+            stores, getfn = set(fi.params), set()
+            for n in own_nodes(fi.node):
+                if isinstance(n, ast.Name) and isinstance(n.ctx, ast.Store):
+                    stores.add(n.id)
+                if isinstance(n, ast.Assign) and len(n.targets) == 1 and isinstance(n.targets[0], ast.Name) \
+                        and isinstance(n.value, ast.Call) and isinstance(n.value.func, ast.Attribute) \
+                        and n.value.func.attr == 'get_function':
+                    getfn.add(n.targets[0].id)
+            c = (stores, getfn)
+            self._fact_cache[fi.qualname] = c
+        return c
+
     def _is_local(self, fi: FuncInfo, name: str) -> bool:
-        if name in fi.params:
-            return True
-        for n in own_nodes(fi.node):
-            if isinstance(n, ast.Name) and n.id == name and isinstance(n.ctx, ast.Store):
-                return True
-        return False
+        return name in self._facts(fi)[0]
 
     def _targets_of(self, r) -> List[object]:
         if r[0] == 'func':
@@ -189,9 +200,15 @@ class CallGraph:
     def _build(self) -> None:
         for fi in self.proj.all_funcs():
             self.g.add_node(fi.qualname)
+        props: Dict[str, list] = {}
+        for c in self.proj.classes.values():
+            for m in c.methods.values():
+                if any(isinstance(d, ast.Name) and d.id == 'property' for d in m.node.decorator_list):
+                    props.setdefault(m.name, []).append(m)
         for fi in list(self.proj.all_funcs()):
             sites = []
-            for n in all_nodes(fi.node):
+            nodes = list(all_nodes(fi.node))
+            for n in nodes:
                 if not isinstance(n, ast.Call):
                     continue
                 targets = self.resolve(fi, n)
@@ -212,12 +229,10 @@ class CallGraph:
                     self.g.add_edge(fi.qualname, qn)
             self.sites[fi.qualname] = sites
             # property access: self.x / obj.x where x is a @property of a package class
-            for n in all_nodes(fi.node):
-                if isinstance(n, ast.Attribute) and isinstance(n.ctx, ast.Load):
-                    for c in self.proj.classes.values():
-                        m = c.methods.get(n.attr)
-                        if m is not None and any(isinstance(d, ast.Name) and d.id == 'property' for d in m.node.decorator_list):
-                            self.g.add_edge(fi.qualname, m.qualname)
+            for n in nodes:
+                if isinstance(n, ast.Attribute) and isinstance(n.ctx, ast.Load) and n.attr in props:
+                    for m in props[n.attr]:
+                        self.g.add_edge(fi.qualname, m.qualname)
 
     def _dynamic_targets(self, fi: FuncInfo, call: ast.Call) -> List[object]:
         """The two dynamic dispatches of the evaluators, modelled exactly:
@@ -232,17 +247,13 @@ class CallGraph:
                     if m.name.startswith('_eval_'):
                         out.append(m)
         # func(*args) where func = <x>.get_function(name)
-        if isinstance(f, ast.Name) and f.id not in fi.module.functions:
-            for n in own_nodes(fi.node):
-                if isinstance(n, ast.Assign) and len(n.targets) == 1 and isinstance(n.targets[0], ast.Name) \
-                        and n.targets[0].id == f.id and isinstance(n.value, ast.Call) \
-                        and isinstance(n.value.func, ast.Attribute) and n.value.func.attr == 'get_function':
-                    for c in self.proj.classes.values():
-                        if 'get_function' in c.methods:
-                            for m in c.methods.values():
-                                if m.name.startswith('_fn_'):
-                                    out.append(m)
-                    out += ['ext:builtins.abs', 'ext:builtins.round']
+        if isinstance(f, ast.Name) and f.id in self._facts(fi)[1]:
+            for c in self.proj.classes.values():
+                if 'get_function' in c.methods:
+                    for m in c.methods.values():
+                        if m.name.startswith('_fn_'):
+                            out.append(m)
+            out += ['ext:builtins.abs', 'ext:builtins.round']
         return out
 
     # -------------------------------------------------------------- queries
@@ -263,3 +274,9 @@ class CallGraph:
             return nx.shortest_path(self.g, a.qualname, b_qual)
         except Exception:
             return []
+
+
+def get_cg(proj: Project) -> CallGraph:
+    if '_cg' not in proj.__dict__:
+        proj.__dict__['_cg'] = CallGraph(proj)
+    return proj.__dict__['_cg']
